@@ -374,9 +374,31 @@ def audit_molecule(text, tier, seed, props=None, max_paths=40):
     return out
 
 
+# pairs of molecules generated one after the other in ONE process (the same fragment text, residue id and descriptor texts, but the descriptors on different
+# atoms; the same repeat unit under two distributions): whatever an earlier generation leaves behind in the library must not leak into the next one
+SEQUENCES = [
+    ["C{[>][<]CC([>])C[<]}|uniform(20, 90)|F", "C{[>][<]CCC[>][<]}|uniform(20, 90)|F"],
+    ["C{[>][<]CCC[>][<]}|uniform(20, 90)|F", "C{[>][<]CC([>])C[<]}|uniform(20, 90)|F"],
+    ["N{[$][$]C(C)C[$][$]}|gauss(60, 10)|O", "N{[$][$]CC([$])C[$]}|gauss(60, 10)|O"],
+    ["OC{[>][<]CC[>][<]}|uniform(20, 90)|F", "OC{[>][<]CC[>][<]}|gauss(70, 15)|F"],
+]
+
+
 def work(task):
     props = task.get("props")
-    r = audit_molecule(task["text"], task["tier"], task["seed"])
+    if "sequence" in task:
+        r = {"evaluations": 0, "distinct": [], "violations": [], "samples": []}
+        for text in task["sequence"]:
+            r1 = audit_molecule(text, task["tier"], task["seed"], max_paths=12)
+            r["evaluations"] += r1["evaluations"]
+            r["distinct"] += r1["distinct"]
+            for v in r1["violations"]:
+                v.setdefault("detail", {})
+                if isinstance(v["detail"], dict):
+                    v["detail"]["generated_after"] = task["sequence"][:task["sequence"].index(text)]
+            r["violations"] += r1["violations"]
+    else:
+        r = audit_molecule(task["text"], task["tier"], task["seed"])
     if props:
         r["violations"] = [v for v in r["violations"] if any(v["key"].startswith(p + "/") for p in props)]
     # one witness per key is enough
@@ -397,11 +419,12 @@ def _plain(v):
 def run_for(props, tier, seed, rule_extra=""):
     cases = [c for c in corpus.all_cases(tier, seed) if c["kind"] == "molecule"]
     tasks = [{"text": c["text"], "tier": tier, "seed": seed, "props": props} for c in cases]
+    tasks += [{"sequence": sq, "text": " then ".join(sq), "tier": tier, "seed": seed, "props": props} for sq in SEQUENCES]
     res = harness.run_tasks("monitor.gendrive", "work", tasks, timeout=240 if tier == "quick" else 1200)
     out = harness.merge(res, rule="every molecule of the corpus (archetypes printed from structured descriptions + all strings documented in README, SI.md, "
                         "tests; distribution parameters scaled down) x scripted target masses {negative, 0, half a unit, 1.5, 2.5 units, exactly k units} "
                         "x all choice sequences (depth-first, scripted generator, bounded per molecule) + seeded random streams; "
-                        "distinct = different (choice sequence, outcome, target); " + rule_extra)
+                        "+ pairs of molecules generated one after the other in one process; distinct = different (choice sequence, outcome, target); " + rule_extra)
     # timeouts / parse failures of documented fragments are not this property's business
     out["timeouts_ignored"] = out.pop("timeouts")
     out["timeouts"] = []
